@@ -2,6 +2,7 @@
 (* Exports the schema of the container of TypedTree.tla so that the replay driver builds the real *)
 (* pg.typing value spec / pg.Object class from the very records the specification uses.          *)
 EXTENDS TypedTree, Json, IOUtils
-ASSUME JsonSerialize(IOEnv.OUT_FILE, [kind |-> Kind, spec |-> RootSpec, listkey |-> LKey, lo |-> Lo, hi |-> Hi])
+ASSUME JsonSerialize(IOEnv.OUT_FILE, [kind |-> Kind, spec |-> RootSpec, listkey |-> LKey, lo |-> Lo, hi |-> Hi,
+                                      classes |-> << <<12, BSpec>>, <<11, ASpec>> >>])
 ExpNext == UNCHANGED vars
 =============================================================================
